@@ -964,6 +964,13 @@ class OdeSystem(object):
         steps = 0
 
         events, is_terminal, direction, last_occurrence, requires_dstate = prepare_events(events, self.__y[0])
+        if events is not None:
+            # A crossing on the boundary between two calls must not be reported again by the second call
+            for __ev_idx, __ev in enumerate(events):
+                for __old_idx in range(len(self.__events) - 1, -1, -1):
+                    if self.__events[__old_idx].event is __ev:
+                        last_occurrence[__ev_idx] = __old_idx
+                        break
 
         implicit_integration = False
         if D.ar_numpy.to_numpy(tf) == np.inf:
